@@ -92,6 +92,7 @@ CONFIGS = [
     ("sv", False, "c128"), ("sv", True, "c128"), ("sv", True, "c64"),
     ("dm", False, "c128"), ("dm", True, "c128"), ("dm", False, "c64"),
     ("cl", False, "-"), ("cl", True, "-"),
+    ("ss", False, "-"),  # cirq.StabilizerSampler (tableau backend); run() only
 ]
 DT = {"c128": np.complex128, "c64": np.complex64}
 
@@ -142,6 +143,8 @@ def make_sim(cfg, prng):
         return cirq.Simulator(seed=prng, dtype=DT[dt], split_untangled_states=split)
     if kind == "dm":
         return cirq.DensityMatrixSimulator(seed=prng, dtype=DT[dt], split_untangled_states=split)
+    if kind == "ss":
+        return cirq.StabilizerSampler(seed=prng)
     return cirq.CliffordSimulator(seed=prng, split_untangled_states=split)
 
 
@@ -210,7 +213,7 @@ def run_run(case):
     prep_i, seq, layout, ci, reps = case
     cfg = CONFIGS[ci]
     circ, ref_circ, qs, cl_ok = build(prep_i, seq, layout)
-    if cfg[0] == "cl" and not cl_ok:
+    if cfg[0] in ("cl", "ss") and not cl_ok:
         return Res(skipped=True, nontrivial=False)
     if not circ.has_measurements():
         return Res(skipped=True, nontrivial=False)
@@ -411,6 +414,8 @@ def stages(tier, seed):
                 continue
             for layout in (0, 1):
                 for ci in range(len(CONFIGS)):
+                    if CONFIGS[ci][0] == "ss":
+                        continue
                     if CONFIGS[ci][0] == "cl" and not _P[prep_i][2]:
                         continue
                     cases.append((prep_i, seq, layout, ci))
@@ -423,8 +428,8 @@ def stages(tier, seed):
         for prep_i in range(len(_P)):
             if uses_qt != _P[prep_i][3]:
                 continue
-            for ci in (0, 1, 3, 4, 6):
-                if CONFIGS[ci][0] == "cl" and not _P[prep_i][2]:
+            for ci in (0, 1, 3, 4, 6, 8):
+                if CONFIGS[ci][0] in ("cl", "ss") and not _P[prep_i][2]:
                     continue
                 for reps in ((1, 2) if len(seq) <= maxr else (1,)):
                     run_cases.append((prep_i, seq, 1, ci, reps))
